@@ -74,7 +74,7 @@ DateDiff(part, a, b) ==
 RoundAway(x, s) == LET f == Pow10(3 - s)  q == Abs(x) \div f  r == Abs(x) % f  up == IF 2 * r >= f THEN q + 1 ELSE q IN IF x < 0 THEN -up ELSE up
 \* as built a NUMERIC argument is cast by the engine, which truncates toward zero
 RoundEven(x, s) == LET f == Pow10(3 - s)  q == Abs(x) \div f IN IF x < 0 THEN -q ELSE q
-Fits(v, p) == Abs(v) < Pow10(p)
+Fits(v, p) == p >= 10 \/ Abs(v) < Pow10(p)        \* (the grid's values have at most 7 digits: every one fits p >= 10)
 \* ---------------------------------------------------------------- strings as character sequences
 Blank(c) == c = " "
 RECURSIVE LStrip(_, _)
@@ -126,6 +126,8 @@ Expected(op, D) ==
          \cup (IF "C10.to_decimal_numeric_truncates" \in D /\ op.how = "num" /\ Fits(e, op.p) THEN {Val(IntStr(e), "Decimal")} ELSE {})
          \cup (IF "C10.to_decimal_overflow_not_rejected" \in D /\ ~ok /\ Abs(v) < Pow10(op.p + 1)
                THEN {Val(IntStr(IF op.how = "num" THEN e ELSE v), "Decimal")} ELSE {})
+    [] op.fn = "todecbig" ->   \* an integer of 20 / 38 digits given as text: NUMBER(38,0) holds it exactly, in every spelling
+         {Val(op.digits, "Decimal")}
     [] op.fn = "equalnull" ->
          {Val(IF op.a = op.b THEN "True" ELSE "False", "bool")}
     [] op.fn = "trim" ->
@@ -172,6 +174,12 @@ Cases ==
   [fn : {"dateadd"}, part : Parts, n : Ns, d : Dates, ctx : CtxUsed]
   \cup [fn : {"datediff"}, part : Parts, a : Dates, b : Dates, ctx : {"select"}]
   \cup [fn : {"todec"}, name : {"to_decimal", "to_number", "to_numeric"}, how : {"str", "num"}, x : Xs, p : {4, 8}, s : {0, 1, 2}, try : BOOLEAN, ctx : {"select"}]
+  \* precision and scale omitted (form "dflt": TO_NUMBER(x)) or a cast (form "cast": x::NUMBER): NUMBER(38,0); a FLOAT argument
+  \cup [fn : {"todec"}, name : {"to_decimal", "to_number"}, how : {"str", "num", "flt"}, x : Xs, p : {38}, s : {0}, try : {FALSE}, form : {"dflt", "cast"}, ctx : {"select"}]
+  \cup [fn : {"todec"}, name : {"to_decimal"}, how : {"str"}, x : Xs, p : {38}, s : {0}, try : {TRUE}, form : {"dflt"}, ctx : {"select"}]
+  \cup [fn : {"todec"}, name : {"to_number"}, how : {"flt"}, x : Xs, p : {8}, s : {0, 1, 2}, try : {FALSE}, form : {"ps"}, ctx : {"select"}]
+  \cup [fn : {"todecbig"}, name : {"to_decimal", "to_number", "to_numeric"}, digits : {"12345678901234567890", "99999999999999999999999999999999999999", "-12345678901234567890123"},
+         try : BOOLEAN, form : {"dflt", "cast", "ps"}, ctx : {"select"}]
   \cup [fn : {"equalnull"}, a : {"null", "1", "2"}, b : {"null", "1", "2"}, ctx : CtxUsed]
   \cup [fn : {"trim"}, which : {"trim", "ltrim", "rtrim"}, s : TrimSubjects, chars : {<<>>, <<"x">>, <<"a", "b">>}, ctx : CtxUsed]
   \cup [fn : {"resub"}, shape : {"digits", "lit_b", "letter_digits"}, s : Subjects, pos : {1, 2, 5}, occ : {1, 2}, grp : {0, 1, 2}, ctx : {"select"}]
@@ -179,8 +187,8 @@ Cases ==
   \* the construct nested in a call of its own kind that changes nothing: REGEXP_REPLACE(REGEXP_REPLACE(s, p, r), 'zzz', '')
   \cup [fn : {"rerep"}, shape : {"digits", "lit_b", "letter_digits"}, s : Subjects, repl : {<<>>, <<"#">>}, ctx : {"selfnested", "upper_nested"}]
   \cup [fn : {"relation"}, rel : {"sha2_default_256", "sha2_hex_same", "sha2_binary_unhex", "sha2_abc_fips", "sha2_empty_fips",
-                                 "random_same_seed_repeatable", "random_same_seed_equal", "sample_seed_repeatable", "identifier_is_name",
-                                 "join_alias_reuse"}, ctx : {"select"}]
+                                 "random_same_seed_repeatable", "random_seed0_repeatable", "random_same_seed_equal", "sample_seed_repeatable", "identifier_is_name",
+                                 "join_alias_reuse", "join_alias_other_block"}, ctx : {"select"}]
   \cup [fn : {"valuescols"}, n : 1..3, ctx : {"select"}]
   \cup [fn : {"arrayagg"}, n : 1..3, order : {"none", "asc", "desc"}, ctx : {"select"}]
 Ops(st) == {o \in Cases : o.fn # "resub" \/ (o.grp = 0 \/ o.shape = "letter_digits")}
